@@ -1,6 +1,6 @@
 (* C14 -- one-dimensional transportation is optimal and its rounding is memory-safe.
    Statements only; every proof is `exact <lemma>`.  Model: Transp1d.v, a line-by-line model of
-   src/place_global/transportation_1d.cpp WITH the F11 repair (fix: commit on agent/C14), tied to the code by the
+   src/place_global/transportation_1d.cpp WITH the F11 repair (fix: commit ef60904 on /repo main), tied to the code by the
    exact correspondence run of ./check C14 (solve() triples and assign() vector equal on every case).
    Labels: [F] proved for all inputs, [B] bounded (finite domain in the statement, vm_compute), [P] partial,
    [R] refuted for the faithful model of the UNCHANGED code (finding F11). *)
@@ -34,7 +34,11 @@ Theorem c14_plan_valid : forall pb sol, solve pb = Ok sol -> valid_plan pb sol.
 Proof. exact solve_valid. Qed.
 
 (* [F] Rounded assignment, all inputs: one entry per source of the ORIGINAL problem (sources without supply
-   included); whenever some sink has positive demand, every entry is a sink of the problem with positive demand. *)
+   included); whenever some sink has positive demand, every entry is a sink of the problem with positive demand.
+   PRESUPPOSITION: the second clause is proved only under `exists j, 0 < d_j`.  On instances whose demands are all
+   zero (inside the quantifier and the exhaustive boxes) it is FALSE for model and C++ alike: `T1 0 1 1 0 0 0 0`
+   gives assign = [0] and sink 0 has demand 0; with no sink at all the entry 0 names a non-existent sink.  The
+   oracle skips the clause there. *)
 Theorem c14_assign_shape :
   forall pb r, assign pb = Ok r ->
   length r = nb_sources pb /\
@@ -49,7 +53,10 @@ Theorem c14_assign_unsplit :
   forall i j a, In (i, j, a) sol -> (forall j' a', In (i, j', a') sol -> j' = j) -> nn r i = j.
 Proof. exact assign_unsplit. Qed.
 
-(* [F] Memory clause, repaired code.  computeAssignment and convertAssignmentBack are modelled with explicit array
+(* [F] Memory clause, repaired code, for the TWO functions computeAssignment and convertAssignmentBack only (the sorter
+   constructor incl. the F11 repair's snkSort[k-1] / idleSink[i], convert, run / push and flushPositions still read
+   through the nth / zn defaults: no out-of-bounds statement is made about them; ASan without _GLIBCXX_ASSERTIONS
+   cannot see over-reads inside reserved capacity).  computeAssignment and convertAssignmentBack are modelled with explicit array
    sizes: every read (p, S, s, D, srcOrder, snkOrder, a) and every write (ret) is option-valued and an access outside
    the array makes assign answer Err EOOB.  It never does, for ANY input. *)
 Theorem c14_no_oob : forall pb, assign pb <> Err EOOB.
@@ -57,7 +64,8 @@ Proof. exact assign_no_oob. Qed.
 
 (* [R] Memory clause, UNCHANGED code (transportation_1d.cpp at ccd26f6: `ret.resize(a.size())` indexed by original
    source index): an input accepted by check() on which the result is written out of bounds.  Finding F11;
-   witness u={0,0,0} v={5} s={0,0,2} d={2} (replayed on the C++ under ASan by ./check C14). *)
+   witness u={0,0,0} v={5} s={0,0,2} d={2} (reproduced on the C++ under ASan before the repair; /repo main carries the
+   fix ef60904, so ./check C14 no longer replays it: the driver's T1U mode is not called; historical). *)
 Theorem c14_no_oob_unfixed_refuted : exists pb, check pb = None /\ assign_unfixed pb = Err EOOB.
 Proof. exact (ex_intro _ f11_witness assign_unfixed_oob). Qed.
 
@@ -89,10 +97,10 @@ Theorem c14_run_optimal :
 Proof. exact run_optimal. Qed.
 
 (* (superseded by c14_optimal, kept) *)
-(* [P] Optimality of solve() itself: proved only in the form "whenever the model's plan passes the checker"
+(* [P, checked-model form, superseded] Optimality of solve() in the form "whenever the model's plan passes the checker"
    (validated per run on every correspondence case).  The unconditional statement
      forall pb sol, solve pb = Ok sol -> forall sol', valid_plan pb sol' -> plan_cost pb sol <= plan_cost pb sol'
-   is NOT proved (it needs the optimality argument of the event sweep); bounded versions follow. *)
+   IS proved above: c14_optimal.  Bounded versions (cross-checks by computation) follow. *)
 Theorem c14_optimal_partial :
   forall pb sol, solve_checked pb = Some sol ->
   solve pb = Ok sol /\ valid_plan pb sol /\ forall sol', valid_plan pb sol' -> plan_cost pb sol <= plan_cost pb sol'.
